@@ -50,6 +50,9 @@ def strategy(draw):
         # two unplaced contigs of one family, whose names differ only deep inside the accession: they sort after the
         # sex chromosomes, by name (seeded change C04m gave them one sort key, so their rows interleaved)
         chroms += [style + "1_KI270706v1_random", style + "1_KI270707v1_random"]
+    # every subset of the three corrections, "none" and "all" twice: with nothing switched on the rows keep the labels
+    # the filters left them (seeded change C04o attached the weights of a flat reference by label there)
+    corr = draw(st.sampled_from(["", "", "g", "e", "r", "ge", "gr", "er", "ger", "ger"]))
     return {
         "chroms": chroms, "seed": draw(st.integers(0, 2 ** 31)),
         "clusters": draw(st.one_of(st.integers(1, 3), st.integers(2, 12))), "max_in_cluster": draw(st.integers(1, 6)),
@@ -57,7 +60,7 @@ def strategy(draw):
         "pooled": draw(st.integers(0, 2)) > 0, "ref_gc": draw(st.integers(0, 3)) > 0, "ref_rmask": draw(st.integers(0, 3)) > 0,
         "bad_frac": draw(st.sampled_from([0.0, 0.1, 0.25])), "null_frac": draw(st.sampled_from([0.0, 0.0, 0.03, 0.08])),
         "drop_frac": draw(st.sampled_from([0.0, 0.0, 0.1])), "picard_gc": draw(st.integers(0, 4)) == 0,
-        "do_gc": draw(st.integers(0, 2)) > 0, "do_edge": draw(st.integers(0, 2)) > 0, "do_rmask": draw(st.integers(0, 2)) > 0,
+        "do_gc": "g" in corr, "do_edge": "e" in corr, "do_rmask": "r" in corr,
         "perm": draw(st.sampled_from([[], ["target"], ["anti"], ["ref"], ["target", "anti", "ref"], ["target", "ref"]])),
         "scale": draw(st.sampled_from([0.0, 1.0, -3.0, 2.5])), "noise": draw(st.sampled_from([0.0, 0.1, 0.4])),
         "negative": draw(st.sampled_from([None, None, None, None, None, "missing", "missing-end", "dup-sample", "dup-ref"])),
